@@ -56,6 +56,10 @@ func genC14(rng *rand.Rand, c *Case) {
 	for i := 0; i < n; i++ {
 		k := 3 + rng.Intn(10)
 		for j := 0; j < k; j++ {
+			if i >= n-c.Cfg["leavers"] && rng.Intn(2) == 0 {
+				c.Ops = append(c.Ops, Op{C: i, K: "cat", N: []int{rng.Intn(len(Catalogue)), rng.Intn(1 << 30)}})
+				continue
+			}
 			switch rng.Intn(12) {
 			case 10, 11:
 				// any registered request type with plausible (existing or missing) targets: exercises rarely used
@@ -96,6 +100,8 @@ func runC14(w *World) {
 	w.WriteFile("MessageBoard.txt", randText(rng, cfg["board"]))
 	w.WriteFile("Agreement.txt", randText(rng, cfg["agreement"]))
 	must(os.MkdirAll(filepath.Join(w.FileRoot, "sub"), 0755))
+	must(os.MkdirAll(filepath.Join(w.FileRoot, "full"), 0755))
+	must(os.WriteFile(filepath.Join(w.FileRoot, "full", "inside.txt"), []byte("x"), 0644))
 	for i := 0; i < cfg["files"]; i++ {
 		must(os.WriteFile(filepath.Join(w.FileRoot, fmt.Sprintf("file-%04d-%s.dat", i, strings.Repeat("x", i%20))), []byte("x"), 0644))
 	}
@@ -165,6 +171,28 @@ func runC14(w *World) {
 						env.UIDs = append(env.UIDs, ids[k])
 					}
 					crng := rand.New(rand.NewSource(int64(op.N[1])))
+					if op.N[1]%3 == 0 {
+						// requests aimed at the error branches of the file handlers: the target exists, the operation
+						// cannot succeed (name taken by a file, by a non-empty folder, by itself; parent missing)
+						names := []string{"file-0000-.dat", "sub", "full", "missing"}
+						a, b := names[crng.Intn(len(names))], names[crng.Intn(len(names))]
+						var id uint32
+						switch crng.Intn(5) {
+						case 0:
+							id = c.Request(rp.TSetFileInfo, rp.FS(rp.FFileName, a), rp.FS(rp.FFileNewName, b))
+						case 1:
+							id = c.Request(rp.TNewFolder, rp.FS(rp.FFileName, a))
+						case 2:
+							id = c.Request(rp.TMoveFile, rp.FS(rp.FFileName, a), rp.F(rp.FFileNewPath, rp.FilePath(b)))
+						case 3:
+							id = c.Request(rp.TMakeFileAlias, rp.FS(rp.FFileName, a), rp.F(rp.FFileNewPath, rp.FilePath(b)))
+						case 4:
+							id = c.Request(rp.TSetFileInfo, rp.FS(rp.FFileName, a), rp.F(rp.FFilePath, rp.FilePath(b)), rp.FS(rp.FFileNewName, a), rp.FS(rp.FFileComment, "c"))
+						}
+						catReq[idx] = append(catReq[idx], id)
+						w.Probe("catalogue_error_branch_requests")
+						continue
+					}
 					id := c.Request(spec.Type, env.ValidRequest(crng, spec)...)
 					catReq[idx] = append(catReq[idx], id)
 					w.Probe("catalogue_requests")
